@@ -173,7 +173,7 @@ def check_sort(c, vals, m, idx, names, xs_idx, kind):
 
 SORT_SCALARS = ['None', 'i0', 'i1', 'i-3', 'f1.0', 'f2.5', 'f-1.5', 'nan_a', 'nan_b', 's_', 's_a', 's_b', 'dt1', 'dt2']
 SORT_SMALL = ['None', 'i1', 'f2.5', 'nan_a', 's_a', 'dt1']
-TUPLE_SCALARS_Q = ['None', 'i1', 'f1.0', 'nan_a', 's_a', 'dt1']
+TUPLE_SCALARS_Q = ['None', 'i1', 'f1.0', 'nan_a', 's_a']
 TUPLE_SCALARS_T = ['None', 'i1', 'f1.0', 'f2.5', 'nan_a', 's_a', 'dt1']
 
 
@@ -383,7 +383,7 @@ def run(tier, seed):
                        '(by identity) and non-decreasing under cmp. dictable.sort: all tables of <= %d rows with a in 5 mixed values (and separately 5 numeric values '
                        'incl. two NaN objects) x b in {0,1} x 8 key choices (columns, lists, functions), seeded tables of 4-5 rows: permutation, ordered, stable, '
                        'idempotent; 8 explicit value orders against a rank oracle. A case is non-trivial when the inputs are not all the same object.'
-                       % (len(names), len(names), 4 if quick else 5, ', length 5 over 6 of them' if quick else '', 36 if quick else 49, 6 if quick else 7, 3 if quick else 4),
+                       % (len(names), len(names), 4 if quick else 5, ', length 5 over 6 of them' if quick else '', 25 if quick else 49, 5 if quick else 7, 3 if quick else 4),
                   exhaustive=False, scope='universe of %d values; lists <= %d; tables <= %d rows (all) and 5 rows (sampled)' % (len(names), 5, 3 if quick else 4))
     m = cmp_matrix(c, u, names)
     check_cmp_laws(c, u, names, m)
